@@ -78,18 +78,23 @@ def verify_slice(item: Union[None, int, slice, Tuple[int, ...]], max_element: in
         return slice(0, max_element, 1)
     elif isinstance(item, int):
         item = check_bound(item)
+        if item >= max_element:
+            raise ValueError('Got out of bounds argument ({}) in slice limited by `{}`'.format(item, max_element))
         return slice(item, item+1, 1)
     elif isinstance(item, slice):
         start = check_bound(item.start)
         stop = check_bound(item.stop)
         step = 1 if item.step is None else item.step
+        if step == 0:
+            raise ValueError('slice step cannot be zero')
         if step > 0:
             if start is None:
                 start = 0
             if stop is None:
                 stop = max_element
         if step < 0:
-            if start is None:
+            if start is None or start == max_element:
+                # the first element reachable going backwards is the final one
                 start = max_element - 1
         if start is not None and stop is not None:
             if numpy.sign(stop - start) != numpy.sign(step):
@@ -122,7 +127,7 @@ def verify_subscript(
     if subscript is None or subscript is Ellipsis:
         return tuple([slice(0, corresponding_shape[i], 1) for i in range(ndim)])
     elif isinstance(subscript, int):
-        out = [verify_slice(slice(subscript, subscript + 1, 1), corresponding_shape[0]), ]
+        out = [verify_slice(subscript, corresponding_shape[0]), ]
         out.extend([slice(0, corresponding_shape[i], 1) for i in range(1, ndim)])
         return tuple(out)
     elif isinstance(subscript, slice):
